@@ -27,6 +27,7 @@ CONFIGS = {
     "c-promiscuous": ["-c", "-fnames", "-promiscuous"],
     "python": ["-python", "-fnames"],
     "python-promiscuous": ["-python", "-fnames", "-promiscuous"],
+    "python-string": ["-python", "-fnames", "-string"],
 }
 
 
@@ -123,9 +124,9 @@ def main(chk):
     rng = chk.rng
     cases = []
     cid = 0
-    for i in range(chk.pick(4, 60)):
+    for i in range(chk.pick(6, 60)):
         libseed = rng.randrange(1 << 30)
-        for cfg in (rng.sample(sorted(CONFIGS), 2) if chk.quick() else sorted(CONFIGS)):
+        for cfg in (rng.sample(sorted(CONFIGS), 3) if chk.quick() else sorted(CONFIGS)):
             cid += 1
             cases.append(dict(id=cid, libseed=libseed, cfg=cfg, drvseed=rng.randrange(1 << 30),
                               ncalls=chk.pick(300, 1500)))
